@@ -67,13 +67,21 @@ Proof.
   destruct (aget l b); reflexivity.
 Qed.
 
+(* definitions::unpack: transmute::<u8, State>(delta & 0x0f) / transmute::<u8, Action>(delta >> 4), read as the
+   discriminant decoders *)
+Lemma g_unpack_eq c delta : g_unpack c delta = unpack delta.
+Proof.
+  unfold g_unpack, unpack. destruct (state_of_disc (N.land delta 15)); [|reflexivity].
+  destruct (action_of_disc (N.shiftr delta 4)); reflexivity.
+Qed.
+
 Lemma g_state_change_eq c s b : g_state_change c s b = state_change s b.
 Proof.
   unfold g_state_change, state_change. rewrite !g_state_change__eq.
   destruct (state_change_ Anywhere b) as [c0|]; try reflexivity.
   destruct (c0 =? 0).
-  - destruct (state_change_ s b); try reflexivity. destruct (unpack n); reflexivity.
-  - destruct (unpack c0); reflexivity.
+  - destruct (state_change_ s b); try reflexivity. rewrite g_unpack_eq. destruct (unpack n); reflexivity.
+  - rewrite g_unpack_eq. destruct (unpack c0); reflexivity.
 Qed.
 
 Lemma g_intermediates_eq c p : g_intermediates c p = intermediates_of p.
@@ -82,10 +90,109 @@ Proof.
   destruct (slice (intermediates p) 0 (intermediate_idx p)); reflexivity.
 Qed.
 
+(* ---- the character accumulators: Utf8Parser::add / AsciiParser::add (with the translated utf8parse callbacks),
+   dispatched on the `utf8` feature, are the hand model's char_add ------------------------------------------- *)
+
+Lemma g_receiver_codepoint_eq o ch : g_receiver_codepoint o ch = Some ch.
+Proof. reflexivity. Qed.
+
+Lemma g_receiver_invalid_sequence_eq o : g_receiver_invalid_sequence o = Some 65533.
+Proof. reflexivity. Qed.
+
+Lemma g_utf8_parser_add_eq c u b :
+  g_utf8_parser_add c u b = char_add (mkCfg (osc_cap c) true) u b.
+Proof.
+  unfold g_utf8_parser_add, char_add, pu_inner, set_pu_inner. cbn [utf8_on]. cbv zeta.
+  destruct (u8_parser_advance u b) as [u' o]. destruct o; reflexivity.
+Qed.
+
+Lemma g_ascii_parser_add_eq c u b :
+  g_ascii_parser_add c u b = char_add (mkCfg (osc_cap c) false) u b.
+Proof. reflexivity. Qed.
+
+Lemma g_char_add_eq c u b : g_char_add c u b = char_add c u b.
+Proof.
+  unfold g_char_add. rewrite g_utf8_parser_add_eq, g_ascii_parser_add_eq.
+  unfold char_add. cbn [utf8_on]. destruct (utf8_on c); reflexivity.
+Qed.
+
+(* ---- ParamsIter: new / iter / into_iter / next / size_hint; the drained iterator is params_groups ------------ *)
+
+Lemma g_params_iter_new_eq c q : g_params_iter_new c q = mkPIt q 0.
+Proof. reflexivity. Qed.
+
+Lemma g_params_iter_eq c q : g_params_iter c q = mkPIt q 0.
+Proof. reflexivity. Qed.
+
+Lemma g_params_into_iter_eq c q : g_params_into_iter c q = mkPIt q 0.
+Proof. reflexivity. Qed.
+
+(* one call of next: the hand model's fuelled collection, unfolded once *)
+Definition params_next (it : params_it) : option (params_it * option (list N)) :=
+  if plen (pit_params it) <=? pit_index it then Some (it, None)
+  else
+    num <- aget (subparams (pit_params it)) (pit_index it) ;;
+    g <- slice (pvals (pit_params it)) (pit_index it) (pit_index it + num) ;;
+    Some (mkPIt (pit_params it) (pit_index it + num), Some g).
+
+Lemma g_params_iter_next_eq c it : g_params_iter_next c it = params_next it.
+Proof.
+  unfold g_params_iter_next, params_next, g_params_len, set_pit_index.
+  destruct (plen (pit_params it) <=? pit_index it); [reflexivity|].
+  destruct (aget (subparams (pit_params it)) (pit_index it)) as [num|]; [|reflexivity].
+  destruct (slice (pvals (pit_params it)) (pit_index it) (pit_index it + num)); reflexivity.
+Qed.
+
+(* size_hint: lower and upper bound are both the number of VALUES not yet visited (not of groups) *)
+Lemma g_params_iter_size_hint_eq c it :
+  g_params_iter_size_hint c it =
+  (d <- csub (plen (pit_params it)) (pit_index it) ;; Some (d, Some d)).
+Proof. reflexivity. Qed.
+
+Lemma iter_drain_S {I A} (next : I -> option (I * option A)) fuel it :
+  iter_drain next (S fuel) it =
+  match next it with
+  | None => None
+  | Some (_, None) => Some []
+  | Some (it', Some x) => match iter_drain next fuel it' with Some xs => Some (x :: xs) | None => None end
+  end.
+Proof. reflexivity. Qed.
+
+Lemma drain_params_iter c : forall fuel it,
+  iter_drain (g_params_iter_next c) (S fuel) it = params_iter fuel (pit_params it) (pit_index it).
+Proof.
+  induction fuel as [|f IH]; intros it; rewrite iter_drain_S; cbn [params_iter]; rewrite g_params_iter_next_eq; unfold params_next.
+  - destruct (plen (pit_params it) <=? pit_index it); [reflexivity|].
+    destruct (aget (subparams (pit_params it)) (pit_index it)) as [num|]; [|reflexivity].
+    destruct (slice (pvals (pit_params it)) (pit_index it) (pit_index it + num)); reflexivity.
+  - destruct (plen (pit_params it) <=? pit_index it); [reflexivity|].
+    destruct (aget (subparams (pit_params it)) (pit_index it)) as [num|]; [|reflexivity].
+    destruct (slice (pvals (pit_params it)) (pit_index it) (pit_index it + num)) as [g|]; [|reflexivity].
+    rewrite (IH (mkPIt (pit_params it) (pit_index it + num))). cbn [pit_params pit_index].
+    destruct (params_iter f (pit_params it) (pit_index it + num)); reflexivity.
+Qed.
+
+Lemma g_params_groups_eq c q : g_params_groups c q = params_groups q.
+Proof. unfold g_params_groups, params_groups. rewrite drain_params_iter. reflexivity. Qed.
+
+(* ---- #[derive(Default)] and Parser::new: the initial value of every field ------------------------------------ *)
+
+Lemma g_params_default_eq c : g_params_default c = params_default.
+Proof. reflexivity. Qed.
+
+Lemma g_state_default_eq c : g_state_default c = default_state.
+Proof. reflexivity. Qed.
+
+Lemma g_parser_default_eq c : g_parser_default c = parser_new.
+Proof. unfold g_parser_default, g_char_acc_default, parser_new. destruct (utf8_on c); reflexivity. Qed.
+
+Lemma g_parser_new_eq c : g_parser_new c = parser_new.
+Proof. unfold g_parser_new. apply g_parser_default_eq. Qed.
+
 Lemma g_process_utf8_eq c p perf b :
   g_process_utf8 c p perf b = acc perf (process_utf8 c p b).
 Proof.
-  unfold g_process_utf8, process_utf8, char_add_m.
+  unfold g_process_utf8, process_utf8. rewrite g_char_add_eq.
   destruct (char_add c (utf8_parser p) b) as [[u o]|]; [|reflexivity].
   destruct o; cbn [acc]; rewrite ?app_nil_r; reflexivity.
 Qed.
@@ -97,10 +204,125 @@ Ltac norm ::=
 Lemma acc_nil {A} perf (a : A) : Some (a, perf) = acc perf (Some (a, [])).
 Proof. cbn. rewrite app_nil_r. reflexivity. Qed.
 
+(* ---- Parser::osc_dispatch: the MaybeUninit slot array, filled for the first osc_num_params slots and read back
+   as initialised, is the hand model's osc_slices ------------------------------------------------------------- *)
+
+Fixpoint osc_fill (p : parser) (cnt : nat) (i : N) : option (list (list N)) :=
+  match cnt with
+  | O => Some []
+  | S k =>
+      '(a, b) <- aget (osc_params p) i ;;
+      s <- slice (osc_raw p) a b ;;
+      rest <- osc_fill p k (i + 1) ;;
+      Some (s :: rest)
+  end.
+
+Lemma osc_fill_length p : forall cnt i fs, osc_fill p cnt i = Some fs -> length fs = cnt.
+Proof.
+  induction cnt as [|k IH]; intros i fs H; cbn [osc_fill] in H.
+  - inversion H. reflexivity.
+  - destruct (aget (osc_params p) i) as [[a b]|]; [|discriminate].
+    destruct (slice (osc_raw p) a b); [|discriminate].
+    destruct (osc_fill p k (i + 1)) eqn:E; [|discriminate]. inversion H. cbn [length]. rewrite (IH _ _ E). reflexivity.
+Qed.
+
+Lemma osc_slices_fill p : forall fuel i,
+  (N.to_nat (osc_num_params p - i) <= fuel)%nat ->
+  osc_slices fuel p i = osc_fill p (N.to_nat (osc_num_params p - i)) i.
+Proof.
+  induction fuel as [|f IH]; intros i H; cbn [osc_slices].
+  - replace (N.to_nat (osc_num_params p - i)) with O by lia. reflexivity.
+  - destruct (N.leb_spec (osc_num_params p) i) as [Hle|Hlt].
+    + replace (N.to_nat (osc_num_params p - i)) with O by lia. reflexivity.
+    + replace (N.to_nat (osc_num_params p - i)) with (S (N.to_nat (osc_num_params p - (i + 1)))) by lia.
+      cbn [osc_fill]. destruct (aget (osc_params p) i) as [[a b]|]; [|reflexivity].
+      destruct (slice (osc_raw p) a b); [|reflexivity]. rewrite IH by lia. reflexivity.
+Qed.
+
+Lemma aset_mid {A} (l1 : list A) x l2 v n :
+  length l1 = n -> aset (l1 ++ x :: l2) (N.of_nat n) v = Some (l1 ++ v :: l2).
+Proof.
+  intros <-. unfold aset. rewrite Nat2N.id. induction l1 as [|h t IH]; cbn [length app aset_nat]; [reflexivity|].
+  rewrite IH. reflexivity.
+Qed.
+
+Lemma firstn_enum_repeat {A} (x : A) : forall m k i,
+  firstn m (penumerate_from i (repeat x k)) = penumerate_from i (repeat x (Nat.min m k)).
+Proof.
+  induction m as [|m IH]; intros k i; [reflexivity|].
+  destruct k as [|k]; [reflexivity|]. cbn [repeat penumerate_from firstn Nat.min]. rewrite IH. reflexivity.
+Qed.
+
+Lemma assume_init_map_some {A} (l : list A) : mu_assume_init_slice (map Some l) = Some l.
+Proof. induction l as [|h t IH]; cbn [map mu_assume_init_slice]; [reflexivity|]. rewrite IH. reflexivity. Qed.
+
+(* the fill loop, for ANY body that does what one iteration of the Rust loop does *)
+Lemma osc_fill_loop p (F : N * option (list N) -> list (option (list N)) -> option (bctl (list (option (list N))))) :
+  (forall i s sl, F (i, s) sl =
+     (el <- aget (osc_params p) i ;;
+      sl' <- slice (osc_raw p) (fst el) (snd el) ;;
+      arr <- aset sl i (Some sl') ;;
+      Some (BNext arr))) ->
+  forall cnt pre post,
+  for_list0 F (penumerate_from (N.of_nat (length pre)) (repeat None cnt)) (map Some pre ++ repeat None cnt ++ post) =
+  match osc_fill p cnt (N.of_nat (length pre)) with
+  | Some fs => Some (map Some (pre ++ fs) ++ post)
+  | None => None
+  end.
+Proof.
+  intros HF. induction cnt as [|k IH]; intros pre post; cbn [repeat penumerate_from for_list0 osc_fill app].
+  - rewrite app_nil_r. reflexivity.
+  - rewrite HF. destruct (aget (osc_params p) (N.of_nat (length pre))) as [[a b]|]; [|reflexivity]. cbn [fst snd].
+    destruct (slice (osc_raw p) a b) as [s|]; [|reflexivity].
+    rewrite (aset_mid (map Some pre) None (repeat None k ++ post) (Some s) (length pre) (map_length _ _)).
+    replace (N.of_nat (length pre) + 1) with (N.of_nat (length (pre ++ [s]))) by (rewrite app_length; cbn [length]; lia).
+    replace (map Some pre ++ Some s :: repeat None k ++ post) with (map Some (pre ++ [s]) ++ repeat None k ++ post)
+      by (rewrite map_app, <- app_assoc; reflexivity).
+    rewrite IH. destruct (osc_fill p k (N.of_nat (length (pre ++ [s])))) as [fs|]; [|reflexivity].
+    rewrite <- app_assoc. reflexivity.
+Qed.
+
+Lemma g_osc_dispatch_eq c p perf b : g_osc_dispatch c p perf b = osc_dispatch_acc p perf b.
+Proof.
+  unfold g_osc_dispatch, osc_dispatch_acc, osc_dispatch. cbv zeta.
+  match goal with |- context [for_list0 ?f _ _] => set (F := f) end.
+  assert (HF : forall i s sl, F (i, s) sl =
+     (el <- aget (osc_params p) i ;;
+      sl' <- slice (osc_raw p) (fst el) (snd el) ;;
+      arr <- aset sl i (Some sl') ;;
+      Some (BNext arr))) by (intros; reflexivity).
+  unfold mu_take_enum, mu_uninit_array, penumerate. rewrite firstn_enum_repeat.
+  set (n := osc_num_params p). set (K := N.to_nat MAX_OSC_PARAMS).
+  set (m := Nat.min (N.to_nat n) K).
+  replace (repeat None K) with (repeat (@None (list N)) m ++ repeat None (K - m))
+    by (rewrite <- repeat_app; f_equal; lia).
+  pose proof (osc_fill_loop p F HF m [] (repeat None (K - m))) as L. cbn [length map app N.of_nat] in L. rewrite L. clear L.
+  destruct (N.ltb_spec MAX_OSC_PARAMS n) as [Hgt|Hle].
+  - destruct (osc_fill p m 0) as [fs|] eqn:E; [|reflexivity].
+    pose proof (osc_fill_length p m 0 fs E) as Hl.
+    unfold slice. rewrite app_length, map_length, repeat_length, Hl.
+    replace (n <=? N.of_nat (m + (K - m))) with false by (symmetry; apply N.leb_gt; lia).
+    rewrite andb_false_r. reflexivity.
+  - rewrite (osc_slices_fill p K 0) by (fold n; lia).
+    fold n. replace (N.to_nat (n - 0)) with m by lia.
+    destruct (osc_fill p m 0) as [fs|] eqn:E; [|reflexivity].
+    pose proof (osc_fill_length p m 0 fs E) as Hl.
+    unfold slice. rewrite app_length, map_length, repeat_length, Hl.
+    replace (n <=? N.of_nat (m + (K - m))) with true by (symmetry; apply N.leb_le; lia).
+    cbn [N.leb andb skipn N.to_nat]. replace (N.to_nat (n - 0)) with (length (map Some fs) + 0)%nat by (rewrite map_length; lia).
+    rewrite firstn_app_2. cbn [firstn]. replace (0 <=? n) with true by (symmetry; apply N.leb_le; lia).
+    cbn [andb]. rewrite app_nil_r, assume_init_map_some. reflexivity.
+Qed.
+
+Ltac norm ::=
+  rewrite ?g_params_is_full_eq, ?g_params_push_eq, ?g_params_extend_eq, ?g_params_clear_eq, ?g_intermediates_eq, ?g_process_utf8_eq,
+          ?g_osc_dispatch_eq, ?g_params_groups_eq in *;
+  unfold intermediates_of, g_params, osc_dispatch_acc in *; setters.
+
 Lemma osc_end_eq c p perf b :
   g_perform_action c p perf AOscEnd b = acc perf (perform_action c p AOscEnd b).
 Proof.
-  unfold g_perform_action, perform_action, osc_dispatch_acc, len. destruct p. setters.
+  unfold g_perform_action, perform_action, len. destruct p. setters.
   des; setters; try congruence; try reflexivity.
 Qed.
 
@@ -114,6 +336,8 @@ Proof.
     destruct p; setters; cbn [acc]; rewrite ?app_nil_r; try reflexivity.
   all: des; setters; cbn [acc]; rewrite ?app_nil_r; try congruence; try reflexivity.
   all: unify_eqs; try congruence; try reflexivity.
+  (* ArrayVec::push on a full buffer (a panic) is excluded by the guard at the head of the arm *)
+  all: cbn [andb] in *; congruence.
 Qed.
 
 Lemma acc_acc {A} perf e1 (r : option (A * list event)) :
@@ -261,3 +485,39 @@ Qed.
 Theorem translated_parser_is_model c bs :
   g_run c parser_new [] bs = run c parser_new bs.
 Proof. rewrite g_run_eq. destruct (run c parser_new bs) as [[? ?]|]; reflexivity. Qed.
+
+(* the same from the TRANSLATED constructor: `Parser::new()` followed by `advance` for every byte *)
+Theorem translated_parser_from_new c bs :
+  g_run c (g_parser_new c) [] bs = run c parser_new bs.
+Proof. rewrite g_parser_new_eq. apply translated_parser_is_model. Qed.
+
+(* configuration: Parser::new() builds the same value in every build; without `utf8` the accumulator is the
+   `unreachable!` of AsciiParser::add, with it the utf8parse decoder and the translated callbacks *)
+Lemma g_parser_new_cfg_independent c1 c2 : g_parser_new c1 = g_parser_new c2.
+Proof. rewrite !g_parser_new_eq. reflexivity. Qed.
+
+Lemma g_char_add_no_utf8 c u b : utf8_on c = false -> g_char_add c u b = None.
+Proof. intros H. unfold g_char_add. rewrite H. reflexivity. Qed.
+
+Lemma g_char_add_utf8 c u b : utf8_on c = true ->
+  g_char_add c u b =
+  Some (fst (u8_parser_advance u b),
+        match snd (u8_parser_advance u b) with U8None => None | U8Codepoint cp => Some cp | U8Invalid => Some 65533 end).
+Proof.
+  intros H. rewrite g_char_add_eq. unfold char_add. rewrite H.
+  destruct (u8_parser_advance u b) as [u' o]. reflexivity.
+Qed.
+
+(* Action::OscPut with the translated buffer operations: `is_full` of the ArrayVec (`raw_full c`), the `#[cfg(feature =
+   "core")]` guard (`if cfg_core c`), and `push`, which on a full ArrayVec PANICS (None in the translation): equal to the
+   hand model, which has no such panic -- the guard excludes it *)
+Lemma g_osc_put_eq c p perf b :
+  g_perform_action c p perf AOscPut b = acc perf (perform_action c p AOscPut b).
+Proof. apply g_perform_action_eq. Qed.
+
+Lemma g_osc_put_byte_no_panic c p perf b :
+  b <> 59 -> g_perform_action c p perf AOscPut b <> None.
+Proof.
+  intros Hb. rewrite g_osc_put_eq. unfold perform_action.
+  destruct (osc_full c p); [discriminate|]. apply N.eqb_neq in Hb. rewrite Hb. discriminate.
+Qed.
